@@ -54,6 +54,7 @@ func runC05(c *Ctx) {
 	c.rule("P7", "the kill chain is unconditional: in CleanKillOfCommand, cmdWrapper.Stop, ps.KillWithChildren and killProcessAndChildren every path to a return passes the next link of the chain (… → killGroup), except through the failing side of an error test or the nil side of a nil test", 4)
 	c.rule("P8", "the monitor's stop callback can run while Execute is blocked in Run: no lock held across Run/Wait is needed by it (exec.Cmd.Cancel alone does not cover a leader that has already exited)", 1)
 	c.rule("P9", "killGroup signals the group of a leader that is already gone: the ESRCH outcome of Getpgid does not end the function before the kill", 1)
+	c.rule("P10", "the cancellation of the command (exec.Cmd.Cancel) kills the tree first: nothing that signals the group leader alone runs before the tree kill — once the leader is gone and reaped, the tree kill can no longer find its group", 1)
 	c.rule("P3", "no lock held across exec.Cmd.Run/Wait is needed by the monitor's stop callback, unless exec.Cmd.Cancel is set to a function that reaches the group kill", 1)
 	c.rule("P4", "isRunning.Store(true) is followed by isRunning.Store(false) on every path to exit (Execute); stop() clears the flag on every path after stopping", 2)
 	c.rule("P5", "cmdWrapper.Stop kills the process tree (KillWithChildren on the process found from the child's pid) in its own flow before it waits for the command", 1)
@@ -566,6 +567,7 @@ func (c *Ctx) c05Flags() {
 		c.check(good, "P5", fname(f), c.pos(f.Pos()), "KillWithChildren on the process found from the child's pid, in Stop's own flow, before Wait", why)
 	}
 	c.c05KillOnEveryPath()
+	c.c05CancelKillsTheTreeFirst()
 	// P6 monitor goroutine
 	if f := c.fn(spPkg, "(*subprocessMonitoring).runProcessMonitoring"); f != nil {
 		var body *ssa.Function
@@ -693,5 +695,77 @@ func (c *Ctx) c05KillOnEveryPath() {
 		esc := pathPruned(f, nil, isNext, isReturn, prune)
 		c.check(esc == nil, "P7", key, c.pos(f.Pos()), "every path to a return passes "+l.what+" (error exits and nil guards aside)",
 			"the return at "+c.iposOr(esc)+" is reached without "+l.what+" having been called, on a path that is neither an error exit nor a nil guard: for that case only the process itself is killed and the other members of its process group (orphans whose parent has exited) survive")
+	}
+}
+
+// c05CancelKillsTheTreeFirst (P10): Execute() sits in cmd.Run(), whose Wait reaps the leader the moment it dies. The tree
+// kill starts from the leader (FindProcess(pid) → KillWithChildren → killGroup): whatever kills the leader alone before the
+// tree kill (the default os/exec cancellation Process.Kill, a Signal) opens a window in which the leader is reaped, the
+// lookup fails with 'not found' or the terminate step with 'process done', and the group kill is never reached — the
+// descendants survive and, holding the pipes, keep Execute() blocked.
+func (c *Ctx) c05CancelKillsTheTreeFirst() {
+	n := 0
+	for _, f := range c.srcFuncs(spPkg) {
+		allInstrs(f, func(in ssa.Instruction) {
+			st, ok := in.(*ssa.Store)
+			if !ok {
+				return
+			}
+			fa, ok := st.Addr.(*ssa.FieldAddr)
+			if !ok {
+				return
+			}
+			so := structOf(fa.X.Type())
+			if so == nil || so.Field(fa.Field).Name() != "Cancel" || !strings.HasSuffix(fa.X.Type().String(), "os/exec.Cmd") {
+				return
+			}
+			mc, isMC := stripConv(st.Val).(*ssa.MakeClosure)
+			if !isMC {
+				return
+			}
+			lit, _ := mc.Fn.(*ssa.Function)
+			if lit == nil {
+				return
+			}
+			n++
+			key := fname(outermost(f)) + "/cancel-kills-the-tree-first"
+			var kill *ssa.Call
+			allInstrs(lit, func(j ssa.Instruction) {
+				if cl, ok := j.(*ssa.Call); ok {
+					nme := calleeFull(&cl.Call)
+					if strings.HasSuffix(nme, "subprocess.CleanKillOfCommand") || strings.HasSuffix(nme, ".KillWithChildren") || strings.HasSuffix(nme, ".killGroup") {
+						kill = cl
+					}
+				}
+			})
+			if kill == nil {
+				c.violate("P10", key, c.ipos(st), "the cancellation of the command does not kill the process tree")
+				return
+			}
+			bad := ""
+			allInstrs(lit, func(j ssa.Instruction) {
+				cl, ok := j.(*ssa.Call)
+				if !ok || cl == kill {
+					return
+				}
+				nme := calleeFull(&cl.Call)
+				if strings.HasPrefix(nme, "context.") || strings.HasPrefix(nme, modPath+"/commonerrors.") || strings.HasPrefix(nme, modPath+"/parallelisation.") {
+					return
+				}
+				// can it run before the tree kill?
+				if pathPruned(lit, nil, func(i ssa.Instruction) bool { return i == ssa.Instruction(kill) }, func(i ssa.Instruction) bool { return i == ssa.Instruction(cl) }, nil) != nil {
+					what := short(nme)
+					if what == "" {
+						what = "a call through a function value (the previous Cancel?)"
+					}
+					bad = what + " at " + c.ipos(cl)
+				}
+			})
+			c.check(bad == "", "P10", key, c.ipos(kill), "the tree kill is the first thing the cancellation does",
+				bad+" can run before the tree kill: if it takes the leader down, Execute()'s Wait reaps it at once, the tree kill then fails to find the process (or to terminate it) and never reaches the group kill — the descendants survive and keep Execute() blocked")
+		})
+	}
+	if n == 0 {
+		c.violate("P10", "subprocess/cancel-kills-the-tree-first", "", "no exec.Cmd.Cancel is set in package subprocess any more: a cancelled context only kills the direct child")
 	}
 }
